@@ -247,3 +247,48 @@ def Trie1.view (t : Trie1) : View where
       match es[ith]? with
       | some b => .ok (some b)
       | none => .error (.panic "out of bound")
+
+/-- compiled form of `Trie1.view` (`@[csimp]` below): `eltsTotal es = 0` adds up the lengths of
+    all values on every leaf read; `es.all List.isEmpty` stops at the first non-empty one -/
+def Trie1.viewFast (t : Trie1) : View where
+  isEmpty := t.nodes.size == 0
+  nodeCnt := t.nodes.size
+  node := fun id =>
+    match t.nodes[id]? with
+    | some n => .ok n
+    | none => .error (.panic "node id out of range")
+  leafPrefixesOn := t.opt.leaf
+  scanOK := t.opt.inner && t.opt.leaf
+  leafBytes := fun ith =>
+    match t.elts with
+    | none => .ok none
+    | some es =>
+      -- newVLenArray returns nil when every element is empty
+      if es.all List.isEmpty then .ok none else
+      match es[ith]? with
+      | some b => .ok (some b)
+      | none => .error (.panic "out of bound")
+
+theorem eltsTotal_eq_zero_iff (es : List Bytes) : eltsTotal es = 0 ↔ es.all List.isEmpty = true := by
+  unfold eltsTotal
+  induction es with
+  | nil => simp
+  | cons e es ih =>
+    simp only [List.map_cons, List.sum_cons, List.all_cons, Bool.and_eq_true]
+    rw [← ih]
+    cases e with
+    | nil => simp
+    | cons b bs => simp
+
+@[csimp] theorem Trie1.view_eq_fast : @Trie1.view = @Trie1.viewFast := by
+  funext t
+  unfold Trie1.view Trie1.viewFast
+  congr 1
+  funext ith
+  cases t.elts with
+  | none => rfl
+  | some es =>
+    simp only
+    by_cases h : eltsTotal es = 0
+    · rw [if_pos h, if_pos ((eltsTotal_eq_zero_iff es).mp h)]
+    · rw [if_neg h, if_neg (fun h' => h ((eltsTotal_eq_zero_iff es).mpr h'))]
